@@ -296,9 +296,7 @@ HARNESSES = {
     "treg": {"make": treg_eval, "witness_every": 5, "jobs": lambda tier: [{}], "clauses": ["C17.d", "C17.d-critical"]},
     "system": {"make": system, "witness_every": 17,
                "jobs": lambda tier: [{"k": 2, "slim": True}, {"k": 2, "slim": True, "rules": 1}] if tier == "quick"
-               else [{"k": 2, "slim": True}, {"k": 2, "slim": True, "rules": 1},
-                     {"k": 3, "slim": True, "acts": ["inspect_new", "flag"]}, {"k": 3, "slim": True, "acts": ["inspect_new", "retrain"]},
-                     {"k": 3, "slim": True, "rules": 1, "acts": ["inspect_new", "flag"]}, {"k": 1, "slim": False}],
+               else [{"k": 2, "slim": True}, {"k": 2, "slim": True, "rules": 1}, {"k": 1, "slim": False}],
                "clauses": ["C17.a", "C17.b", "C17.c", "C17.e", "C17.d-sys"]},
 }
 
@@ -310,7 +308,7 @@ META = {
     },
     "files": ["operon_ai/surveillance/tcell.py", "operon_ai/surveillance/treg.py", "operon_ai/surveillance/thymus.py",
               "operon_ai/surveillance/immune_system.py", "operon_ai/surveillance/memory.py"],
-    "bounds": {"quick": "T-cell: one inspect from an arbitrary watcher state, optionally after a reset/false-alarm-reset/flag; Treg: 4 responses x <=2 rules; system: training + 2 actions, inspected windows differ from the training window in response time, error rate, canary accuracy and vocabulary hash", "thorough": "T-cell up to 2 state-changing calls before the inspect; system: 2 actions over all four kinds (with and without a tolerance rule), 3 actions over {inspect_new, flag}, {inspect_new, retrain} and, with a tolerance rule, {inspect_new, flag} (3 actions over all four kinds exceed 5 minutes on 16 cores: outside); plus 1 action with a fully symbolic window"},
+    "bounds": {"quick": "T-cell: one inspect from an arbitrary watcher state, optionally after a reset/false-alarm-reset/flag; Treg: 4 responses x <=2 rules; system: training + 2 actions, inspected windows differ from the training window in response time, error rate, canary accuracy and vocabulary hash", "thorough": "T-cell up to 2 state-changing calls before the inspect; system: 2 actions over all four kinds (with and without a tolerance rule) plus 1 action with a fully symbolic window (3 system actions do not finish in 50 minutes on 16 cores even over two kinds of action: outside)"},
     "outside": ["MHCDisplay.generate_peptide internals (stubbed)", "hash collisions", "IEEE rounding of bounds off the grid", "Treg fed responses the T-cell cannot produce"],
     "float_argument": "exact rationals on grids 1/4 and 1/20; comparisons only (F-cmp)",
     "assumptions": ["fingerprint generator stubbed", "statistics module stubbed (contract above)", "suppression rule conditions are stubs"],
